@@ -30,7 +30,7 @@ package crosscompile
 //@ at_call os.MkdirAll requires confined: pathok(strrank(path), strrank(dest))
 //@ at_call os.OpenFile requires confined: pathok(strrank(name), strrank(dest))
 //@ at_call os.Create requires confined: pathok(strrank(name), strrank(dest))
-//@ requires file != nil
+//@ requires param0 != nil
 //@ modifies nothing
 
 //@ func extractZip
